@@ -56,3 +56,77 @@ SEARCH = {'c01_fragment_type_condition': ['c01_exec']}
 BOUNDED = {'C01': [dict(case='c01_exec', function='Schema::execute on a derive-built schema (objects, interface, union, lists): Fields::add_set, create_value_object / insert_value, remove_skipped_selection, resolve_list, derive-generated resolve_field / collect_all_fields',
                         bound='15 hand-written (query, expected JSON text) pairs: key order, aliases, repeated-key merge, fragments on object / interface / union conditions, nested and named fragments, @skip/@include with literals and variables',
                         why='the executor is async over dyn Future and derive-generated code; only the type-condition expression of add_set is under contract')]}
+
+
+# ----------------------------------------------------------------------------------------------------------------------
+# @skip / @include: remove_skipped_selection::is_skipped decides from ALL directives of the selection
+from vx.unit import IterFind, ClosureMatch, ReplaceRange  # noqa: E402
+from specs.common import value_types, ast_types            # noqa: E402
+
+S = 'src/schema.rs'
+TM = 'parser/src/types/mod.rs'
+
+SKIP_SHIMS = r'''
+pub type Variables = NameMap<ConstValue>;
+// the boolean a directive's `if` argument denotes under the request variables: `into_const_with(variables)` followed by
+// `<bool as InputType>::parse(..).unwrap_or_default()` -- abstracted as ONE uninterpreted function of (argument, variables)
+pub uninterp spec fn cond_value(arg: Positioned<Value>, vars: Variables) -> bool;
+#[verifier::external_body]
+pub fn eval_condition(condition_input: &Positioned<Value>, variables: &Variables) -> (r: bool) ensures r == cond_value(*condition_input, *variables) { unimplemented!() }
+'''
+
+SKIP_SPEC = r'''
+pub open spec fn arg_if(d: Directive) -> Option<Positioned<Value>> {
+    if exists|i: int| 0 <= i < d.arguments@.len() && d.arguments@[i].0.node@ == "if"@ {
+        Some(d.arguments@[choose|i: int| 0 <= i < d.arguments@.len() && d.arguments@[i].0.node@ == "if"@ && forall|j: int| 0 <= j < i ==> d.arguments@[j].0.node@ != "if"@].1)
+    } else { None }
+}
+// GraphQL spec, CollectFields: a selection is skipped if it carries @skip whose `if` is true, or @include whose `if` is false
+pub open spec fn directive_skips(d: Directive, vars: Variables) -> bool {
+    (d.name.node@ == "skip"@ && arg_if(d) is Some && cond_value(arg_if(d)->Some_0, vars))
+    || (d.name.node@ == "include"@ && arg_if(d) is Some && !cond_value(arg_if(d)->Some_0, vars))
+}
+pub open spec fn spec_skipped(ds: Seq<Positioned<Directive>>, vars: Variables) -> bool {
+    exists|i: int| 0 <= i < ds.len() && directive_skips((#[trigger] ds[i]).node, vars)
+}
+'''
+
+
+def skip_unit(kf):
+    u = Unit('c01_is_skipped', ['C01'], 'a selection is pruned exactly when one of its @skip/@include directives says so (every directive is consulted)')
+    u.kf = kf
+    value_types(u)
+    ast_types(u)
+    u.prelude('string_eq')
+    u.prelude('iter_shims')
+    u.trusted(SKIP_SHIMS, 'Variables / condition evaluation shims')
+    u.spec(SKIP_SPEC, '@skip/@include spec')
+    u.extract_fn(TM, ['impl Directive', 'fn get_argument'], wrap_impl='Directive',
+                 rewrites=[Sub('item.0.node == name', 'item.0.node.as_str() == name', rule='R-ty'),
+                           IterFind('vec_find', '(Positioned<Name>, Positioned<Value>)', 'p__.0.node@ == name@', ref='&'),
+                           ClosureMatch('opt.map')],
+                 ensures=['name@ == "if"@ ==> (match r { Some(a) => arg_if(*self) == Some(*a), None => arg_if(*self) is None })'])
+    u.extract_fn(S, ['fn remove_skipped_selection', 'fn is_skipped'], label=S + '::fn remove_skipped_selection::fn is_skipped (nested)',
+                 rewrites=[Sub('for directive in directives {',
+                               'let mut i__: usize = 0; while i__ < directives.len() { let directive = &directives[i__]; i__ += 1;', rule='R-iter',
+                               why='Verus for-loops do not support `continue`: the slice loop is written as its index form (increment before the body)'),
+                           Sub('match &*directive.node.name.node { "skip" => false, "include" => true, _ => continue, }',
+                               'if directive.node.name.node.as_str() == "skip" { false } else if directive.node.name.node.as_str() == "include" { true } else { continue }',
+                               rule='R-strmatch', why='match on string literals is equality with each literal in order'),
+                           ReplaceRange([('let value = condition_input', 'let value: bool = InputType::parse(Some(value)).unwrap_or_default();',
+                                          'let value: bool = eval_condition(condition_input, variables);')], rule='R-payload')],
+                 ensures=['r == spec_skipped(directives@, *variables)'],
+                 loops={0: dict(prop=['forall|i: int| 0 <= i < i__ ==> !directive_skips((#[trigger] directives@[i]).node, *variables)'],
+                                aux=['i__ <= directives@.len()'], decreases='directives@.len() - i__',
+                                head='')},
+                 inserts=[('after', 'let directive = &directives[i__]; i__ += 1;',
+                           'proof { reveal_strlit("skip"); reveal_strlit("include"); reveal_strlit("if"); assert("skip"@.len() == 4); assert("include"@.len() == 7); assert(*directive == directives@[i__ - 1]); }')])
+    u.assume('the value of a directive\'s `if` argument (into_const_with(variables) + bool parse, unwrap_or_default) is abstracted to the uninterpreted cond_value(argument, variables) (R-payload); '
+             'that it uses variable DEFAULTS is not decided here (open known finding C01-skip-include-ignore-variable-defaults: the caller passes raw variables)')
+    u.assume('remove_skipped_selection itself (Vec::retain with closures, recursion over &mut selection sets) is not under contract; bounded table c01_exec')
+    u.search_case('schema.rs', 'c01_exec')
+    return u
+
+
+UNITS['c01_is_skipped'] = (['C01'], skip_unit)
+SEARCH['c01_is_skipped'] = ['c01_exec']
